@@ -4,7 +4,8 @@
 (*                <= MaxLen attributes of distinct keys from AttrChoices, under every         *)
 (*                allow-list configuration Lcfg(k); attributes are added one at a time, so    *)
 (*                every prefix is a state.                                                    *)
-(*  Mode = "css": every style value that is a concatenation of <= MaxLen CSS fragments.       *)
+(*  Mode = "css": every style value that is a concatenation of <= MaxLen CSS fragments         *)
+(*                ("csscore": of the 20 core fragments, for one more level of depth).         *)
 (*  Mode = "ref": every SVG reference / local-href value of <= MaxLen fragments (no theorem   *)
 (*                of the property speaks about these; they are exported for exact replay).    *)
 (* Theorems: ThmSafe (the output is safe: intended configuration), ThmInert (structure: a     *)
@@ -73,9 +74,12 @@ CssFrags == {
              <<114, 103, 98, 40, 49, 44, 50, 37, 44, 51, 41>>, <<117, 114, 108, 40>>, <<85, 82, 76, 40>>, <<117, 13, 114, 108, 40>>, <<41>>,    \* rgb(1,2%,3) url( URL( u\rrl( )
              <<40>>, <<49>>, <<49, 41>>, <<120, 41>>, <<101, 120, 112, 114, 101, 115, 115, 105, 111, 110, 40>>,    \* ( 1 1) x) expression(
              <<47, 42>>, <<39, 97, 32, 98, 39>>, <<34>>, <<97, 45, 98>>, <<233>>,    \* /* 'a b' " a-b é
-             <<33, 105, 109, 112, 111, 114, 116, 97, 110, 116>>, <<92>>, <<44>>, <<45>>, <<10>>}    \* !important \\ , - \n
+             <<33, 105, 109, 112, 111, 114, 116, 97, 110, 116>>, <<92>>, <<44>>, <<45>>, <<10>>,    \* !important \\ , - \n
+             <<49, 49>>, <<46>>}    \* 11 .
+CssCore == {<<99, 111, 108, 111, 114, 58>>, <<98, 111, 114, 100, 101, 114, 58>>, <<98, 101, 104, 97, 118, 105, 111, 114, 58>>, <<102, 105, 108, 108, 58>>, <<58>>, <<59>>, <<32>>, <<114, 101, 100>>, <<101, 118, 105, 108>>, <<49, 112, 120>>, <<117, 114, 108, 40>>, <<85, 82, 76, 40>>, <<41>>, <<40>>, <<49>>, <<120, 41>>, <<39, 97, 32, 98, 39>>, <<97, 45, 98>>, <<92>>, <<45>>, <<49, 49>>, <<46>>}    \* (+ 11 .) color: border: behavior: fill: : ;   red evil 1px url( URL( ) ( 1 x) 'a b' a-b \\ -
 RefFrags == {<<117, 114, 108>>, <<40>>, <<41>>, <<35>>, <<32>>, <<120>>, <<120, 121>>, <<38, 108, 116, 59>>, <<38, 97, 109, 112, 59>>, <<10>>, <<85, 82, 76, 40>>, <<8195>>}
-Frags == IF Mode = "css" THEN CssFrags ELSE RefFrags
+IsCss == Mode \in {"css", "csscore"}
+Frags == IF Mode = "css" THEN CssFrags ELSE IF Mode = "csscore" THEN CssCore ELSE RefFrags
 
 VARIABLES k, tok, v, n
 vars == <<k, tok, v, n>>
@@ -98,7 +102,7 @@ OutSafe(D) == Res(D).r = "tok" => SafeTok(Res(D).tok, L)
 StyleTok(s) == T("StartTag", S_p, NS_html, <<<<None, A_style, s>>>>, <<>>)
 ThmSafe == CheckProperty =>
     CASE Mode = "tok" -> OutSafe(KnownDefects)
-      [] Mode = "css" -> CssSafe(SanitizeCss(v, L, KnownDefects), L)
+      [] IsCss -> CssSafe(SanitizeCss(v, L, KnownDefects), L)
       [] OTHER -> TRUE
 ThmInert == Mode = "tok" =>
     LET r == Res(KnownDefects) IN
@@ -107,15 +111,15 @@ ThmInert == Mode = "tok" =>
     /\ (r.r = "raise" => IsTag(tok) /\ AllowedEl(tok, L))
 ThmExplained ==
     CASE Mode = "tok" -> (~OutSafe(KnownDefects)) => OutSafe({})
-      [] Mode = "css" -> (~CssSafe(SanitizeCss(v, L, KnownDefects), L)) => CssSafe(SanitizeCss(v, L, {}), L)
+      [] IsCss -> (~CssSafe(SanitizeCss(v, L, KnownDefects), L)) => CssSafe(SanitizeCss(v, L, {}), L)
       [] OTHER -> TRUE
 \* idempotence of the CSS step on its own output (a sanitized style is a fixed point up to the joining format)
-ThmCssStable == Mode = "css" => LET o == SanitizeCss(v, L, KnownDefects) IN SanitizeCss(o, L, KnownDefects) = o
+ThmCssStable == IsCss => LET o == SanitizeCss(v, L, KnownDefects) IN SanitizeCss(o, L, KnownDefects) = o
 ThmExport == Export =>
     CASE Mode = "tok" -> PrintT(ToJson([k |-> k, inp |-> tok, r |-> Res(KnownDefects).r, out |-> Res(KnownDefects).tok,
                                         unsafe |-> IF Res(KnownDefects).r = "tok" THEN TokClauses(Res(KnownDefects).tok, L) ELSE {},
                                         cfg |-> IF n = 0 /\ tok.t = "Comment" THEN Lcfg(k) ELSE [el |-> {}]]))
-      [] Mode = "css" -> PrintT(ToJson([v |-> v, out |-> SanitizeCss(v, L, KnownDefects), cfg |-> IF v = <<>> THEN L ELSE [el |-> {}],
+      [] IsCss -> PrintT(ToJson([v |-> v, out |-> SanitizeCss(v, L, KnownDefects), cfg |-> IF v = <<>> THEN L ELSE [el |-> {}],
                                         unsafe |-> ~CssSafe(SanitizeCss(v, L, KnownDefects), L)]))
       [] OTHER -> PrintT(ToJson([v |-> v, ref |-> SvgRefSub(v), nonlocal |-> NonLocalRef(v)]))
 =============================================================================
